@@ -821,3 +821,185 @@ pub fn aimed(r: &mut Rng) -> Y {
         )]),
     }
 }
+
+// ---------------------------------------------------------------- exhaustive boundary sweep
+/// The boundary durations every duration-valued key is given in turn (integer
+/// forms are cast `as u64` by parse_duration: -1 is u64::MAX seconds).
+pub fn sweep_durations() -> Vec<Y> {
+    vec![
+        Y::Int(-1),
+        Y::Int(0),
+        Y::Int(1),
+        s("0s"),
+        Y::Int(65535),
+        Y::Int(65536),
+        Y::Int(4294967295),
+        Y::Int(4294967296),
+        Y::Raw("18446744073709551615".into()),
+        s("18446744073709551615s"),
+        s("18446744073709551615"),
+        s("30500568904943w"),
+        Y::Raw("18446744073709551616".into()),
+        s("18446744073709551616"),
+        Y::Int(i64::MAX),
+        Y::Int(i64::MIN),
+        s("18446744073709551608s"),
+        s("18446744073709551609s"),
+        s("4294967295s"),
+        s("4294967296s"),
+        s("65535s"),
+        s("65536s"),
+    ]
+}
+
+pub fn sweep_integers() -> Vec<Y> {
+    vec![
+        Y::Int(-1),
+        Y::Int(0),
+        Y::Int(1),
+        Y::Int(127),
+        Y::Int(128),
+        Y::Int(255),
+        Y::Int(256),
+        Y::Int(1279),
+        Y::Int(1280),
+        Y::Int(65535),
+        Y::Int(65536),
+        Y::Int(2147483647),
+        Y::Int(2147483648),
+        Y::Int(-2147483648),
+        Y::Int(-2147483649),
+        Y::Int(4294967295),
+        Y::Int(4294967296),
+        Y::Int(i64::MAX),
+        Y::Int(i64::MIN),
+        Y::Raw("18446744073709551615".into()),
+        Y::Raw("18446744073709551616".into()),
+    ]
+}
+
+/// an RA interface with every section present; `edit` places the value under test
+fn full_interface(edit: &dyn Fn(&mut Vec<(Y, Y)>)) -> Y {
+    let mut h = vec![
+        (s("hop-limit"), Y::Int(64)),
+        (s("lifetime"), s("30m")),
+        (s("reachable"), s("30s")),
+        (s("retransmit"), s("1s")),
+        (s("mtu"), Y::Int(1480)),
+        (s("prefixes"), Y::Arr(vec![Y::Hash(vec![(s("prefix"), s("2001:db8:0:1::/64")), (s("valid"), s("30d")), (s("preferred"), s("7d"))])])),
+        (s("dns-servers"), Y::Hash(vec![(s("addresses"), Y::Arr(vec![s("2001:db8::53")])), (s("lifetime"), s("1h"))])),
+        (s("dns-search"), Y::Hash(vec![(s("domains"), Y::Arr(vec![s("example.com")])), (s("lifetime"), s("1h"))])),
+        (s("pref64"), Y::Hash(vec![(s("prefix"), s("64:ff9b::/96")), (s("lifetime"), s("10m"))])),
+        (s("captive-portal"), s("http://portal.example.com/")),
+    ];
+    edit(&mut h);
+    Y::Hash(vec![
+        (s("addresses"), Y::Arr(vec![s("192.0.2.0/24"), s("2001:db8::/64")])),
+        (s("router-advertisements"), Y::Hash(vec![(s("eth0"), Y::Hash(h))])),
+    ])
+}
+
+fn set(h: &mut Vec<(Y, Y)>, key: &str, v: Y) {
+    if let Some(e) = h.iter_mut().find(|(k, _)| *k == s(key)) {
+        e.1 = v;
+    } else {
+        h.push((s(key), v));
+    }
+}
+
+fn set_in(h: &mut Vec<(Y, Y)>, outer: &str, key: &str, v: Y) {
+    if let Some((_, Y::Hash(inner))) = h.iter_mut().find(|(k, _)| *k == s(outer)) {
+        set(inner, key, v);
+    }
+}
+
+/// Every duration-valued and integer-valued key of the grammar with every
+/// boundary value in turn, in an otherwise valid document whose sections are
+/// all present (so that the accepted configuration is really advertised /
+/// served with the value), and the min/max advertisement intervals in every
+/// pair.  Deterministic: part of every run.
+pub fn sweep() -> Vec<Y> {
+    let mut out = vec![];
+    let durs = sweep_durations();
+    let ints = sweep_integers();
+    // router advertisements: interface level
+    for key in ["lifetime", "reachable", "retransmit", "max-router-advertisement-interval", "min-router-advertisement-interval"] {
+        for v in &durs {
+            out.push(full_interface(&|h| set(h, key, v.clone())));
+        }
+    }
+    for (outer, key) in [("dns-servers", "lifetime"), ("dns-search", "lifetime"), ("pref64", "lifetime")] {
+        for v in &durs {
+            out.push(full_interface(&|h| set_in(h, outer, key, v.clone())));
+        }
+    }
+    for key in ["valid", "preferred"] {
+        for v in &durs {
+            out.push(full_interface(&|h| {
+                if let Some((_, Y::Arr(a))) = h.iter_mut().find(|(k, _)| *k == s("prefixes")) {
+                    if let Y::Hash(p) = &mut a[0] {
+                        set(p, key, v.clone());
+                    }
+                }
+            }));
+        }
+    }
+    // the pair the loader cross-checks
+    let mut both = durs.clone();
+    both.extend([Y::Int(3), Y::Int(4), s("4s"), Y::Int(450), Y::Int(600), Y::Int(1349), Y::Int(1350), s("1350s"), Y::Int(1351), Y::Int(1800), s("1800s"), Y::Int(1801)]);
+    for mn in &both {
+        for mx in &both {
+            for min_first in [true, false] {
+                out.push(full_interface(&|h| {
+                    if min_first {
+                        set(h, "min-router-advertisement-interval", mn.clone());
+                        set(h, "max-router-advertisement-interval", mx.clone());
+                    } else {
+                        set(h, "max-router-advertisement-interval", mx.clone());
+                        set(h, "min-router-advertisement-interval", mn.clone());
+                    }
+                }));
+            }
+        }
+    }
+    for key in ["hop-limit", "mtu"] {
+        for v in &ints {
+            out.push(full_interface(&|h| set(h, key, v.clone())));
+        }
+    }
+    // prefix lengths of the announced prefix and of PREF64, every length
+    for len in (0..=130).chain([200, 255, 256]) {
+        out.push(full_interface(&|h| {
+            if let Some((_, Y::Arr(a))) = h.iter_mut().find(|(k, _)| *k == s("prefixes")) {
+                if let Y::Hash(p) = &mut a[0] {
+                    set(p, "prefix", s(&format!("2001:db8::/{}", len)));
+                }
+            }
+        }));
+        out.push(full_interface(&|h| set_in(h, "pref64", "prefix", s(&format!("64:ff9b::/{}", len)))));
+    }
+    // DHCP: lease keys and duration / integer typed options, served from inside the subnet
+    let policy = |key: &str, v: &Y| -> Y {
+        Y::Hash(vec![
+            (s("addresses"), Y::Arr(vec![s("198.51.100.0/24")])),
+            (
+                s("dhcp-policies"),
+                Y::Arr(vec![Y::Hash(vec![(s("match-subnet"), s("192.0.2.0/24")), (s("apply-subnet"), s("192.0.2.0/24")), (s(key), v.clone())])]),
+            ),
+        ])
+    };
+    for key in [
+        "apply-default-lease", "apply-max-lease", "apply-lease-time", "apply-renewal-time", "apply-rebind-time", "apply-arp-timeout",
+        "apply-mtu-timeout", "apply-max-reassembly", "apply-ipv6-preferred", "apply-tcp-keepalive-time",
+    ] {
+        for v in &durs {
+            out.push(policy(key, v));
+        }
+    }
+    for key in ["apply-mtu", "apply-time-offset", "apply-default-ttl", "apply-tcp-ttl", "apply-max-size", "apply-netbios-type"] {
+        for v in &ints {
+            out.push(policy(key, v));
+        }
+    }
+    out
+}
